@@ -66,6 +66,29 @@ REPROS = {
         "ref = U @ r0; ref /= np.linalg.norm(ref)\n"
         "err = np.abs(got - ref).max(); print('ThermalProp exact, EX space, from a^dagger thermal(GS): max |rho - U rho0/norm| =', err)\n"
         "sys.exit(1 if err > 1e-9 else 0)\n",
+    "tree-max-entangled-ex":
+        "import renormalizer\nimport numpy as np, sys\nfrom renormalizer.model import Op, basis as ba\nfrom renormalizer.tn import BasisTree, TTNO\nfrom renormalizer.tn.utils_eph import max_entangled_ex\n"
+        "basis = []\n"
+        "for i in range(3): basis += [ba.BasisSimpleElectron('e%d' % i), ba.BasisSHO('v%d' % i, 1.0, 2)]\n"
+        "bad = []\n"
+        "for name, bt in (('linear', BasisTree.linear(basis)), ('binary', BasisTree.binary(basis))):     # binary: electrons on nodes with two children\n"
+        "    rho = max_entangled_ex(bt.add_auxiliary_space())\n"
+        "    occ = [float(np.real(rho.expectation(TTNO(bt, Op(r'a^\\dagger a', 'e%d' % i))))) for i in range(3)]\n"
+        "    print(name, 'tree: beta = 0 occupations of the three molecules', occ, '(must be 1/3 each)')\n"
+        "    if max(abs(o - 1/3) for o in occ) > 1e-10: bad.append(name)\n"
+        "sys.exit(1 if bad else 0)\n",
+    "tree-imag-prefactor-normalisation":
+        "import renormalizer\nimport numpy as np, scipy.linalg as sla, sys\nfrom renormalizer.model import Op, basis as ba\nfrom renormalizer.tn import BasisTree, TTNO, TTNS\n"
+        "from renormalizer.utils import EvolveConfig, EvolveMethod, CompressConfig, CompressCriteria\n"
+        "np.random.seed(3); n = 4; basis = [ba.BasisHalfSpin(i) for i in range(n)]\n"
+        "terms = [Op('X X', [i, i+1], 0.8) for i in range(n-1)] + [Op('Z', i, 0.3*(i+1)) for i in range(n)]\n"
+        "bt = BasisTree.binary(basis); ttno = TTNO(bt, terms); H = np.asarray(ttno.todense(basis)).reshape(2**n, 2**n)\n"
+        "s = TTNS.random(bt, 0, 8); s.canonicalise(); s.normalize('ttns_and_coeff'); s.coeff = s.coeff * 2.5\n"
+        "s.evolve_config = EvolveConfig(EvolveMethod.tdvp_ps); s.compress_config = CompressConfig(CompressCriteria.fixed, max_bonddim=32)\n"
+        "psi = np.asarray(s.todense(basis)).ravel() * s.coeff; o = s.evolve(ttno, -0.2j)\n"
+        "got = np.asarray(o.todense(basis)).ravel() * o.coeff; ref = sla.expm(-0.2*H) @ psi; ref /= np.linalg.norm(ref)\n"
+        "print('imaginary-time TTNS.evolve of a state with prefactor 2.5: norm of the result', np.linalg.norm(got), ' distance to normalised exp(-tau H)psi', np.linalg.norm(got - ref))\n"
+        "sys.exit(1 if np.linalg.norm(got - ref) > 1e-6 else 0)\n",
     "finite-temperature-entry-point-beta":
         "import renormalizer\nimport numpy as np, sys\nfrom renormalizer.model import HolsteinModel, Mol, Phonon\nfrom renormalizer.transport import ChargeDiffusionDynamics, InitElectron\n"
         "from renormalizer.utils import Quantity, CompressConfig, CompressCriteria\n"
@@ -254,12 +277,14 @@ def run(ctx):
     for i in range(2 if quick else 6):
         jobs.append(("exact", {"script": "c10_exact.py", "seed": seed + 29 * i, "n": 4 if quick else 10, "n_int": 2 if quick else 5}))
     jobs.append(("sites", {"script": "c10_sites.py", "seed": seed + 5}))
+    for k in range(4):
+        jobs.append(("tree", {"script": "c10_tree.py", "seed": seed + 3, "part": k, "nparts": 4, "budget_s": 120 if quick else 900}))
     nsh = 12
     for i in range(nsh):
         jobs.append(("oracle", {"script": "c10_oracle.py", "seed": seed, "shard": i, "nshards": nsh, "tier": ctx.tier, "budget_s": 75 if quick else 900}))
-    jobs.sort(key=lambda j: {"oracle": 0, "pc": 1, "exact": 2, "sites": 1}[j[0]])
+    jobs.sort(key=lambda j: {"oracle": 0, "pc": 1, "exact": 2, "sites": 1, "tree": 0}[j[0]])
     results = ctx.impl_par("c09_dispatch.py", [p for _, p in jobs], timeout=(420 if quick else 3000), par=14)
-    by = {"pc": [], "exact": [], "oracle": [], "sites": []}
+    by = {"pc": [], "exact": [], "oracle": [], "sites": [], "tree": []}
     for (kind, _), r in zip(jobs, results):
         by[kind].append(r)
     for rc, res, raw in by["pc"]:
@@ -283,6 +308,18 @@ def run(ctx):
         if res["nbad"]:
             classes.setdefault("finite-temperature-entry-point-beta", []).extend(res["bad"])
         samples += res["samples"][:1]
+    n_tree = 0
+    for rc, res, raw in by["tree"]:
+        if res is None or "n" not in res:
+            corr_bad.append({"what": "c10_tree.py failed", "out": (raw or "")[-800:]})
+            continue
+        n_tree += res["n"]
+        ev += res["n"]
+        for b in res["bad"]:
+            key = {"beta=0": "tree-max-entangled-ex", "thermal": "tree-thermal-propagation", "thermal tree": "tree-thermal-propagation",
+                   "imag prefactor": "tree-imag-prefactor-normalisation"}.get(b.get("what"), "oracle/tree")
+            classes.setdefault(key, []).append(b)
+    ctx.notes.append("trees: %d checks (max_entangled_ex at beta = 0 and thermal propagation on 8 tree shapes, prefactor handling of imaginary-time TTNS.evolve on 4 shapes x 4 schemes)" % n_tree)
     if sites is not None:
         wrong = [x for x in sites if x["form"] != "BetaOver2j"]
         if wrong:
@@ -376,6 +413,9 @@ def run(ctx):
         repro = REPROS.get(key)
         what = {"cmf-imag-midpoint-realtime": "oracle clause `every scheme that supports imaginary time yields exp(-tau H) psi / norm within its own order`",
                 "finite-temperature-entry-point-beta": "theorem C10_thermal_sites_half_beta (generated call-site table) and the oracle on the package's finite-temperature entry points (total imaginary time = beta/2, occupations = canonical averages at beta)",
+                "tree-max-entangled-ex": "oracle: tn.utils_eph.max_entangled_ex on trees with electrons on internal nodes: beta = 0 state = identity on the one-exciton sector",
+                "tree-thermal-propagation": "oracle: thermal propagation of the purified tree state vs dense Gibbs state",
+                "tree-imag-prefactor-normalisation": "oracle: imaginary-time TTNS.evolve returns the normalised vector (prefactor x tensors) whatever the input prefactor",
                 "imag-input-reuse": "oracle: imaginary-time evolution from a re-used input object / with adaptive stepping (the input must not be overwritten)",
                 "evolve-exact-imaginary-dt": "oracle: Mps/MpDm.evolve_exact with an imaginary evolve_dt vs exp(-tau H_loc)",
                 "exact-propagator-dense": "theorem C10_exact_prop_dense (tie) / dense oracle of Mpo.exact_propagator GS and EX",
@@ -389,5 +429,5 @@ def run(ctx):
     return {"evaluations": ev, "distinct_nontrivial": nontriv,
             "rule": "imaginary P&C: a (model, state, scheme, dt) case counts once its dense result matched the Coq-exported polynomial in -tau H to 1e-10; exact_propagator: a propagator counts if bond dimensions, off-diagonals, the scaled site and the exponent of every configuration equal the model; oracle checks are counted in evaluations only",
             "samples": samples[:3], "exhaustive": False,
-            "input_distribution": {"imag_pc_cases": n_pc, "finite_T_entry_point_checks": n_sites, "purified_integer_ties": n_int, "purified_integer_ties_exact": n_int_ok, "exact_propagator_ties": n_tie, "exact_propagator_ties_equal": n_tie_ok,
+            "input_distribution": {"imag_pc_cases": n_pc, "tree_checks": n_tree, "finite_T_entry_point_checks": n_sites, "purified_integer_ties": n_int, "purified_integer_ties_exact": n_int_ok, "exact_propagator_ties": n_tie, "exact_propagator_ties_equal": n_tie_ok,
                                    "oracle_checks": n_or, "oracle_jobs_skipped": skipped, "violation_classes": {k: len(v) for k, v in classes.items()}}}
